@@ -203,6 +203,10 @@ func Census(fns []*ssa.Function, kinds map[string]bool) []PPO {
 					if _, c := ConstInt(x.Len); !c && want("make") {
 						add(in, "make", "make("+typeName(x.Type())+")", x.Len)
 					}
+					// make(T, 0, n): the capacity panics (negative) and allocates (huge) just as a length does
+					if _, c := ConstInt(x.Cap); !c && x.Cap != x.Len && want("make") {
+						add(in, "make", "make("+typeName(x.Type())+", cap)", x.Cap)
+					}
 				case *ssa.Slice:
 					if !want("slice") {
 						continue
